@@ -1,7 +1,8 @@
 (* Tie: the data regenerated from vgi_rpc/http/_bearer.py, _proof.py, _unauthorized.py on every run
    (gen/G_Gates.v) is the data the C24 theorems are about; the theorems restated over the generated data. *)
-From Coq Require Import List NArith Bool.
+From Coq Require Import List NArith ZArith Bool.
 From VGI Require Import M_Gates L_Gates G_Gates P_C24.
+From VGI Require M_Proof G_Proof.   (* C22's regenerated verify_proof; not imported: constructor names overlap *)
 Import ListNotations.
 Open Scope N_scope.
 
@@ -90,3 +91,39 @@ Proof. intros ms. rewrite chain_guards_tie. apply C24_gate_not_in_chain. Qed.
 
 Theorem C24_source_gate_failure_not_swallowed : forall r, swallowed_with gen_chain_swallows (XProof r) = false.
 Proof. intros r. rewrite chain_swallows_tie. reflexivity. Qed.
+
+(* ------------------------------------------------------------------ statement order of verify_proof *)
+(* Source obligation behind hist_step: the replay cache is the LAST check of verify_proof.  Stated over the
+   verify_proof term that C22's translator regenerates statement by statement from vgi_rpc/http/_proof.py:
+   verifying WITH a cache is verifying WITHOUT one, then asking the cache only if that accepted.  Since
+   check_and_add is the only operation that inserts, a presentation the uncached verifier refuses (bad MAC,
+   unknown kid, out of window, malformed) cannot consume a replay slot. *)
+Definition nonce_field (token : M_Proof.str) : M_Proof.str := nth 3 (M_Proof.split_on 46 token) [].
+
+Lemma verify_proof_cache_check_is_last : forall hmac token secrets origin skew cache now,
+  G_Proof.gen_verify_proof hmac token secrets origin skew (Some cache) now =
+  match G_Proof.gen_verify_proof hmac token secrets origin skew None now with
+  | M_Proof.Accept l k o => if cache (nonce_field token) then M_Proof.Accept l k o else M_Proof.Reject M_Proof.Replayed
+  | x => x
+  end.
+Proof.
+  intros hmac token secrets origin skew cache now.
+  unfold G_Proof.gen_verify_proof, nonce_field.
+  destruct (Nat.ltb G_Proof.gen_max_header (length token)); [reflexivity|].
+  destruct (M_Proof.split_on 46 token) as [|v [|k [|t [|n [|mc [|x r]]]]]]; try reflexivity.
+  cbn [length Nat.eqb negb nth].
+  repeat match goal with
+         | |- context [if negb ?b then _ else _] =>
+             lazymatch b with
+             | cache _ => fail
+             | _ => destruct b; cbn [negb]; try reflexivity
+             end
+         | |- context [match secrets ?a with _ => _ end] => destruct (secrets a) as [[? ?]|]; try reflexivity
+         | |- context [match M_Proof.py_int ?a with _ => _ end] => destruct (M_Proof.py_int a); try reflexivity
+         | |- context [if Z.gtb ?a ?b then _ else _] => destruct (Z.gtb a b); try reflexivity
+         | |- context [match G_Proof.gen_canonical_string ?a ?b ?c ?d with _ => _ end] =>
+             destruct (G_Proof.gen_canonical_string a b c d); try reflexivity
+         | |- context [match M_Proof.unb64 ?a with _ => _ end] => destruct (M_Proof.unb64 a); try reflexivity
+         end.
+  destruct (cache n); reflexivity.
+Qed.
